@@ -8,7 +8,7 @@ g=sys.argv[1]; pat=sys.argv[2]
 G=kgroups.GROUPS[g]
 G['harnesses']=[dict(h, tier='quick') for h in G['harnesses'] if re.search(pat,h['name'])]
 d=tempfile.mkdtemp(prefix='k1_')
-r=runkani.run_groups('ALL',[g],'quick','/repo',d,0)
+r=runkani.run_groups('ALL',[g],'quick',os.environ.get('K1_REPO','/repo'),d,0)
 for h in r['harnesses']:
     print(h['name'].split('::')[-1], h['status'], h.get('time_s'), (h.get('reason') or '')[:300], h.get('failed_checks') or '')
 if '--keep' in sys.argv: print(d)
